@@ -592,9 +592,9 @@ func ruleSchemaFlow(c *Ctx) []Obligation {
 	}
 	for _, ck := range checks {
 		var hit *ssa.Lookup
-		eachInstr(build, func(in ssa.Instruction) {
+		c.eachInstrDeep(build, func(in ssa.Instruction) {
 			l, ok := in.(*ssa.Lookup)
-			if !ok || l.X != foundMap {
+			if !ok || resolveArg(l.X) != foundMap {
 				return
 			}
 			if !derivesFrom(l.Index, func(x ssa.Value) bool { return isFieldRef(x, ck.field) }) {
@@ -605,7 +605,7 @@ func ruleSchemaFlow(c *Ctx) []Obligation {
 				return
 			}
 			// find the If that tests this lookup for presence (any of the forms presenceOf knows)
-			for _, blk := range build.Blocks {
+			for _, blk := range l.Parent().Blocks {
 				ifi, ok := blk.Instrs[len(blk.Instrs)-1].(*ssa.If)
 				if !ok {
 					continue
@@ -620,7 +620,12 @@ func ruleSchemaFlow(c *Ctx) []Obligation {
 					errBlk = ifi.Block().Succs[0]
 				}
 				if blockReturnsError(errBlk) {
-					hit = l
+					// inside a private helper the error must also be passed on by the caller
+					if l.Parent() == build {
+						hit = l
+					} else if h := helperOf(l.Parent()); h != nil && errorPropagated(h.site) {
+						hit = l
+					}
 				}
 			}
 		})
